@@ -55,6 +55,12 @@ def ping(n):
     return pong(n - 1)
 def pong(n):
     return ping(n)
+def deliver(n, sink, audit):
+    return sink(n) + audit
+def dispatch(n, on_ok, on_err):
+    if n > 0:
+        return on_ok(n)
+    return on_err(n)
 '''
 CALLS = {
     "direct": "r = helper(1)",
@@ -78,29 +84,30 @@ CALLS = {
     "two-sites": "r = helper(1)\ns = helper(2)",
     "branch": "if len('a') > 0:\n    r = helper(1)\nelse:\n    r = other(1)",
     "loop": "for i in [1, 2]:\n    r = helper(i)",
+    "kw-callback-mixed": "r = deliver(7, sink=helper, audit=5)",
+    "kw-callback-two": "r = dispatch(1, on_ok=helper, on_err=other)",
 }
+ALIASED = ("helper", "other", "Thing", "Deep", "fast", "slow", "make", "apply", "rec", "ping", "deliver", "dispatch")
 IMPORT_FORMS = {
     "one-file": None,
-    "from-import": "from lib import helper, other, Base, Thing, Deep, fast, slow, make, apply, rec, ping, pong",
-    "reexport": "from facade import helper, other, Base, Thing, Deep, fast, slow, make, apply, rec, ping, pong",
+    "from-import": "from lib import helper, other, Base, Thing, Deep, fast, slow, make, apply, rec, ping, pong, deliver, dispatch",
+    "reexport": "from facade import helper, other, Base, Thing, Deep, fast, slow, make, apply, rec, ping, pong, deliver, dispatch",
     "module-attr": "import lib",
     "alias": "import lib as L",
-    "from-alias": "from lib import helper as helper, other as other, Thing as Thing, Deep as Deep, fast as fast, slow as slow, make as make, apply as apply, rec as rec, ping as ping",
-    "package": "from pkg.lib import helper, other, Base, Thing, Deep, fast, slow, make, apply, rec, ping, pong",
+    "from-alias": "from lib import " + ", ".join(f"{n} as {n}_al" for n in ALIASED),
+    "deep-alias": "from app.core.lib import " + ", ".join(f"{n} as {n}_al" for n in ALIASED),
+    "package": "from pkg.lib import helper, other, Base, Thing, Deep, fast, slow, make, apply, rec, ping, pong, deliver, dispatch",
 }
 POSITIONS = ["top", "function", "method", "nested"]
 
 
 def qualify(body, form):
+    import re
     if form in ("module-attr", "alias"):
         pre = "lib." if form == "module-attr" else "L."
-        for n in ("helper", "other", "Thing", "Deep", "fast", "slow", "make", "apply", "rec", "ping"):
-            body = body.replace(n + "(", pre + n + "(").replace(" " + n + ",", " " + pre + n + ",").replace("= " + n + "\n", "= " + pre + n + "\n")
-            body = body.replace("[" + n + ",", "[" + pre + n + ",").replace(", " + n + "]", ", " + pre + n + "]").replace(": " + n + "}", ": " + pre + n + "}")
-            body = body.replace("(" + n + ",", "(" + pre + n + ",")
-            if body.endswith("= " + n):
-                body = body[:-len(n)] + pre + n
-        body = body.replace(pre + pre, pre)
+        return re.sub(r"(?<![\w.])(%s)\b(?!\s*=[^=])" % "|".join(ALIASED), lambda m: pre + m.group(1), body)
+    if form in ("from-alias", "deep-alias"):
+        return re.sub(r"(?<![\w.])(%s)\b(?!\s*=[^=])" % "|".join(ALIASED), lambda m: m.group(1) + "_al", body)
     return body
 
 
@@ -119,6 +126,10 @@ def build(kind, form, position):
         return {"main.py": LIB + main}
     if form == "package":
         return {"pkg/__init__.py": "", "pkg/lib.py": LIB, "main.py": IMPORT_FORMS[form] + "\n" + main}
+    if form == "deep-alias":
+        # the caller lives in a nested package and names the library by its root-anchored dotted path, under aliases
+        return {"app/__init__.py": "", "app/core/__init__.py": "", "app/core/lib.py": LIB, "app/services/__init__.py": "",
+                "app/services/orders.py": IMPORT_FORMS[form] + "\n" + main, "main.py": "import app.services.orders\n"}
     if form == "reexport":
         facade = IMPORT_FORMS["from-import"] + "\ndef own_fn(a):\n    return a\n"
         return {"lib.py": LIB, "facade.py": facade, "main.py": IMPORT_FORMS[form] + "\n" + main}
